@@ -714,3 +714,70 @@ func splitOnNewline(v ssa.Value) bool {
 	sep, ok := ir.ConstStr(oc.Call.Args[1])
 	return ok && sep == "\n"
 }
+
+// streamWriteLocked re-states C09's R-field-writer under another rule name for properties that need
+// "delivery on a session's stream holds that stream's own write lock" (C05): every write use of a writer
+// kept in a field of a mutex-bearing record holds the record's designated mutex exclusively.
+func streamWriteLocked(c *Ctx, rule string, serverOnly bool) int {
+	ls := c.Locks()
+	type fu struct {
+		owner *types.Named
+		uses  []wuse
+	}
+	by := map[string]*fu{}
+	for _, fn := range c.P.LibFns {
+		if c.InitOnly()[fn] || (serverOnly && clientSide(c, fn)) {
+			continue
+		}
+		ir.EachInstr(fn, func(_ *ssa.BasicBlock, _ int, in ssa.Instruction) {
+			u, ok := in.(*ssa.UnOp)
+			if !ok {
+				return
+			}
+			fa, ok := u.X.(*ssa.FieldAddr)
+			if !ok {
+				return
+			}
+			key, _, typ, base := ir.FullField(fa)
+			owner := ir.FullFieldOwner(fa)
+			if key == "" || !isWriterType(typ) || !ir.InLibrary(owner) || !concurrentStruct(owner) || ir.BaseAlloc(base) {
+				return
+			}
+			for _, dv := range derived(u) {
+				if dv.Referrers() == nil {
+					continue
+				}
+				for _, r := range *dv.Referrers() {
+					if what, ok := writeUse(r, dv); ok {
+						if by[key] == nil {
+							by[key] = &fu{owner: owner}
+						}
+						by[key].uses = append(by[key].uses, wuse{fn, r, what, ls.At(r)})
+					}
+				}
+			}
+		})
+	}
+	var keys []string
+	for k := range by {
+		keys = append(keys, k)
+	}
+	sort.Strings(keys)
+	n := 0
+	for _, k := range keys {
+		f := by[k]
+		guard := commonGuard(f.uses, ir.TypeKey(f.owner), c)
+		cnt := map[string]int{}
+		for _, u := range f.uses {
+			n++
+			construct := k + " " + u.what + " in " + fname(u.fn)
+			cnt[construct]++
+			if cnt[construct] > 1 {
+				construct = sprintf("%s#%d", construct, cnt[construct])
+			}
+			c.R.Check(guard != "" && u.locks.HasWrite(guard), rule, construct, c.Pos(u.in.Pos()), "holds "+guard,
+				sprintf("%s writes to the session stream %s via %s without holding the stream's own write lock %s (held: [%s]): frames sent to one session concurrently interleave and are lost", fname(u.fn), k, u.what, guard, strings.Join(u.locks.Keys(), ",")))
+		}
+	}
+	return n
+}
